@@ -342,12 +342,18 @@ class FilesystemLayout(_BaseLayout[_MaildirT]):
 
     """
 
+    #: Names inside a folder's directory that are not its sub-folders.
+    _reserved = frozenset([
+        'new', 'cur', 'tmp', 'maildirfolder', 'subscriptions',
+        'subscriptions.lock', 'dovecot-uidlist', 'dovecot-uidlist.lock',
+        'dovecot-keywords', 'dovecot.sieve'])
+
     @classmethod
     def _split(cls, name: str, delimiter: str) -> _Parts:
         parts = super()._split(name, delimiter)
         for part in parts:
-            if part in ('new', 'cur', 'tmp'):
-                # the maildir's own directories, not mailboxes
+            if part in cls._reserved:
+                # the maildir's own directories and files, not mailboxes
                 raise ValueError(name)
         return parts
 
@@ -357,7 +363,7 @@ class FilesystemLayout(_BaseLayout[_MaildirT]):
     def _can_remove(self, parts: _Parts) -> bool:
         path = self._get_path(parts)
         for elem in os.listdir(path):
-            if elem not in ('new', 'cur', 'tmp'):
+            if elem not in self._reserved:
                 elem_path = os.path.join(path, elem)
                 if os.path.isdir(elem_path):
                     return False
@@ -375,7 +381,7 @@ class FilesystemLayout(_BaseLayout[_MaildirT]):
             yield parts
             stack.extend(reversed([
                 list(parts) + [elem] for elem in os.listdir(path)
-                if elem not in ('new', 'cur', 'tmp')]))
+                if elem not in self._reserved]))
 
     def _rename_folder(self, source_parts: _Parts, dest_parts: _Parts) -> None:
         path = self._get_path(source_parts)
